@@ -8,3 +8,5 @@ for p in "$@"; do
   ./check $p quick 2>&1 | grep -E "VIOLATION|KNOWN|spec failure|correspondence|^C[0-9]+ " | cut -c1-260
 done
 cd /repo && git checkout -- . && cd /verif/harness && cargo build --offline 2>&1 | tail -1
+# the runs above rewrote evidence/ with data of the changed tree: put the committed files back
+cd /verif && git checkout -- evidence 2>/dev/null
